@@ -64,7 +64,7 @@ func (c Case) producer() (<-chan tree.Trees, error) {
 				b.WriteString("(a,b;\n") // a record the reader reports as an error
 			case c.bad(i) && c.BadKind == "renamed":
 				mm := m.Clone()
-				mm.TipNodes()[0].Name = "zz_other"
+				mm.TipNodes()[0].Name = curPfx + "zz_other"
 				b.WriteString(ref.Write(mm) + "\n")
 			default:
 				b.WriteString(ref.Write(m) + "\n")
@@ -81,7 +81,7 @@ func (c Case) producer() (<-chan tree.Trees, error) {
 		mm := m
 		if c.bad(i) && c.BadKind == "renamed" {
 			mm = m.Clone()
-			mm.TipNodes()[0].Name = "zz_other"
+			mm.TipNodes()[0].Name = curPfx + "zz_other"
 		}
 		t, err := gt.FromModel(mm)
 		if err != nil {
@@ -115,7 +115,38 @@ type result struct {
 	err     bool
 }
 
+// runNo numbers the runs of this process: every run works on tip names no earlier run has used,
+// so that whatever the library keeps per name between calls is first touched by the run's own
+// worker threads (as in a new process started with several threads).
+var runNo int
+var curPfx string // prefix of the current run (the foreign taxon of a mismatched tree is fresh too)
+
 func (c Case) run(threads int) (result, error) {
+	runNo++
+	pfx := fmt.Sprintf("u%dx", runNo)
+	curPfx = pfx
+	fresh := func(m *ref.Node) *ref.Node {
+		mm := m.Clone()
+		for _, tip := range mm.TipNodes() {
+			tip.Name = pfx + tip.Name
+		}
+		return mm
+	}
+	cc := c
+	cc.Ref = fresh(c.Ref)
+	cc.Trees = nil
+	for _, m := range c.Trees {
+		cc.Trees = append(cc.Trees, fresh(m))
+	}
+	r, err := cc.runPlain(threads)
+	r.text = strings.ReplaceAll(r.text, pfx, "")
+	for k, v := range r.records {
+		r.records[k] = strings.ReplaceAll(v, pfx, "")
+	}
+	return r, err
+}
+
+func (c Case) runPlain(threads int) (result, error) {
 	var r result
 	ch, err := c.producer()
 	if err != nil {
@@ -316,7 +347,7 @@ func genCase(t *rapid.T, thorough bool) Case {
 func TestC11Threads(t *testing.T) {
 	h.Run(t, h.Spec[Case]{
 		Property: "C11", Name: "threads", Quick: 3000, Thorough: 60000, Timeout: 60 * time.Second,
-		Rule: "Compare / CompareWeighted / FBP / TBE on a reference tree and a stream of 1..40 trees (fresh parses), thread counts {2,3,4,8,16,64}, GOMAXPROCS {1,2,16}, producer goroutine pausing by a drawn pattern (Gosched / 1us / 200us), optional error record or taxon-mismatched tree first / middle / last / several (up to 12); a quarter of the streams come from utils.ReadMultiTrees on a text (one in six of those empty); TBE in half of the cases with raw tree, moved-taxa and per-branch tables in a log file (compared after masking dates and the CPU count); binary built with -race (a report ends the process: violation); results compared per tree id with the 1-thread run, twice; watchdog 60 s; non-trivial = #trees >= 2*threads, or a bad record in a stream of >= 3 trees",
+		Rule: "Compare / CompareWeighted / FBP / TBE on a reference tree and a stream of 1..40 trees (fresh parses), thread counts {2,3,4,8,16,64}, GOMAXPROCS {1,2,16}, producer goroutine pausing by a drawn pattern (Gosched / 1us / 200us), optional error record or taxon-mismatched tree first / middle / last / several (up to 12); a quarter of the streams come from utils.ReadMultiTrees on a text (one in six of those empty); TBE in half of the cases with raw tree, moved-taxa and per-branch tables in a log file (compared after masking dates and the CPU count); binary built with -race (a report ends the process: violation); every run uses tip names that no earlier run of the process has used; results compared per tree id with the 1-thread run, twice; watchdog 60 s; non-trivial = #trees >= 2*threads, or a bad record in a stream of >= 3 trees",
 		Gen:   genCase,
 		Check: check,
 		Classify: func(c Case) (bool, []string) {
